@@ -32,7 +32,7 @@ STATE_MEASURE = "distinct (protocol state [idle / waiting(n labels)], move kind,
 WHITE_BOX = []
 STUBS = ["classifier: deterministic threshold rule on feature a (sklearn-cloneable; fit learns the threshold) - except scenario svc, which runs a real sklearn.svm.SVC",
          "margin function: |a - threshold| <= margin", "sklearn KFold wrapped by a recording subclass (real splits)"]
-MOVES = ["update", "update2", "label", "label_perm", "label_renamed", "label_missing", "label_extra", "label2"]
+MOVES = ["update", "update2", "label", "label_perm", "label_renamed", "label_missing", "label_extra", "label2", "label_strnames"]
 
 
 class Stub(ClassifierMixin, BaseEstimator):
@@ -164,9 +164,11 @@ def gen(rng, scenario, tier):
             kind = "update" if c < 0.86 else rng.choice(MOVES[1:])
         else:
             # (label_perm: the same columns in another order - legal, the refusal rule is about the SET of columns)
-            kind = rng.choice(["label", "label", "label_perm"]) if c < 0.8 else rng.choice(["update", "update2", "label_renamed", "label_missing", "label_extra", "label2"])
+            kind = rng.choice(["label", "label", "label_perm"]) if c < 0.8 else rng.choice(["update", "update2", "label_renamed", "label_missing", "label_extra", "label2", "label_strnames"])
+        if scenario != "legal" and phase == "source" and rng.random() < 0.012:
+            kind = "reref"       # the user changes a hyper-parameter of the classifier and summarises the SAME reference again
         n_rows = 2 if kind.endswith("2") else 1
-        ev.append([kind, [_row(rng, shift, flip) for _ in range(n_rows)]])
+        ev.append([kind, [_row(rng, shift, flip) for _ in range(n_rows)]] + ([rng.choice([0.2, 0.45, 0.8, 1.3])] if kind == "reref" else []))
     return {"cfg": cfg, "ref": ref, "events": ev, "shuffled_index": rng.random() < 0.3}
 
 
@@ -340,10 +342,40 @@ def _run(case, ctx, lifecycle=False):
         n_updates = since = 0
         rounds = confirmed = ruled_out = warnings = 0
         refused_states = set()
-        for t, (kind, rows) in enumerate(case["events"]):
+        for t, evt in enumerate(case["events"]):
+            kind, rows = evt[0], evt[1]
             ctx.step = t
             det = ctx.maybe_fork(det)
             clf = det.classifier          # (after a snapshot / restore the user's classifier is the restored one)
+            if kind == "reref":
+                if waiting or state == "drift":
+                    continue
+                # same reference rows, another hyper-parameter of the user's classifier (the stub's margin width / the SVC's C):
+                # set_reference must summarise the reference afresh, with clones of the classifier as it is NOW
+                if cfg.get("clf") == "svc":
+                    cfg = dict(cfg, C={0.1: 1.0, 1.0: 10.0, 10.0: 0.1}[cfg.get("C", 1.0)])
+                    clf.set_params(C=cfg["C"])
+                else:
+                    cfg = dict(cfg, margin=evt[2] if len(evt) > 2 else 0.45)
+                    clf.set_params(margin=cfg["margin"])
+                h.cfg = cfg
+                cur = ref if rounds == 0 else cur_ref
+                try:
+                    det.set_reference(deliver(cur), target_name=target)
+                except Exception as e:  # noqa: BLE001
+                    if _sklearn_domain(e):
+                        raise EndRun()
+                    ctx.call("C19:set_reference", det.set_reference, deliver(cur), target_name=target)
+                caller_reuses_buffers()
+                ctx.fault("reference_summarised_again_after_set_params")
+                st = h.refstats(cur)
+                h.check_ref(det, st, f"move {t}: the same reference summarised again after set_params")
+                N = len(cur)
+                md, ff = st["md"], (N - 1) / N
+                if not close(det.curr_margin_density, md, 1e-12):
+                    ctx.violation("margin_density", "C19:margin_density", f"move {t} (reref): curr_margin_density={det.curr_margin_density!r}, reference margin density {md!r}")
+                    raise EndRun()
+                continue
             is_update = kind.startswith("update")
             snap = _snapshot(det)
             pstate = f"waiting({len(odata)})" if waiting else "idle"
@@ -354,7 +386,9 @@ def _run(case, ctx, lifecycle=False):
                 call = lambda: det.update(Xd)  # noqa: E731
             else:
                 lab = deliver(_frame(rows, kind))
-                legal = waiting and kind in ("label", "label_perm")
+                if kind == "label_strnames":
+                    lab.columns = [str(c) for c in lab.columns]      # the same labels as text (a row read back from a csv file)
+                legal = waiting and (kind in ("label", "label_perm") or (kind == "label_strnames" and not names))
                 call = lambda: det.give_oracle_label(lab)  # noqa: E731
             try:
                 try:
@@ -422,6 +456,7 @@ def _run(case, ctx, lifecycle=False):
                     confirmed += state == "drift"
                     ruled_out += state is None
                     st = h.refstats(od)
+                    cur_ref = od
                     N = len(od)
                     md, ff = st["md"], (N - 1) / N
                     waiting, odata = False, []
